@@ -11,7 +11,7 @@ from ..runner import CheckFailure, Stats, fail, hyp_search
 
 ID = "C16"
 RULE = (
-    "Scalable input families k -> text. Nesting families: a unit composed of 1-3 constructs (36 expression units: parentheses, "
+    "Scalable input families k -> text. Nesting families: a unit composed of 1-3 constructs (46 expression units: parentheses, "
     "casts, sizeof, calls, subscripts, unary chains, ?:, assignments, compound literals, type names inside array bounds ...; 14 "
     "statement units; 9 declarator units) nested k deep - all single units and all ordered pairs are enumerated, Hypothesis "
     "composes triples; repetition families: k-fold repetition of every declaration/statement kind and long "
@@ -20,8 +20,9 @@ RULE = (
     "required steps(2k) <= 2.3 * steps(k) + 400 at every doubling; a family is cut off and fails when it exceeds 50x the linear "
     "extrapolation. Lexer regexes (work invisible to the profiler): adversarial literal prefixes of length n = 64..512 (runs of "
     "\\123, \\x41, \\\\, digits, hex digits, './e', unterminated quotes, quote runs, comment openers) timed best-of-5: fails "
-    "only if t(2n) > 3.5 t(n) on two consecutive doublings with t > 20 ms, or a 300-character input takes > 1 s; the same coarse "
-    "wall-time test backs up the parser part. Non-trivial: families whose unit contains a '('-type-name or a declarator "
+    "only if t(2n) > 3.5 t(n) on two consecutive doublings with t > 20 ms, or a 300-character input takes > 1 s; work hidden from the call counter "
+    "in the parser (list copies, dict merges) is covered by CPU-time ratios at 3 200 vs 12 800 repetitions of 11 families (fails "
+    "only above 5.5x for 4x the input, confirmed by three re-measurements). Non-trivial: families whose unit contains a '('-type-name or a declarator "
     "look-ahead; distinct by construction (enumeration) / hash of the unit (Hypothesis)."
 )
 ASSUMPTIONS = [
@@ -36,6 +37,8 @@ E = [
     ("(struct S){", "}"), ("(struct S){.m = ", "}"), ("(int[]){[", "] = 1}"), ("offsetof(struct S, a[", "])"),
     ("sizeof(struct { int q[", "];})"), ("(T)", ""), ("(T)-", ""), ("(", ")++"), ("(", ")(1)"), ("(", ")[1]"), ("(", ").m"),
     ("a.", ""), ("a->", ""),
+    # the hole as LEFT operand (assignment targets, condition of ?:, comma, binary)
+    ("(", ") = 1"), ("(", ") += 1"), ("*(", ") = 1"), ("", " ? 1 : 2"), ("", ", 1"), ("", " && 1"), ("", " < 1"), ("", " * 2"), ("&(", ")"), ("(", ")->m"),
 ]  # fmt: skip
 S = [
     ("{ ", " }"), ("if (1) ", ""), ("if (1) ; else ", ""), ("if (1) ", " else ;"), ("while (1) ", ""), ("for (;;) ", ""),
@@ -181,16 +184,6 @@ def check_family(name, builder, ks, st, case):
             if n > RATIO * pn + SLACK:
                 fail("growth", case, builder(ks[0]), "family %s: work (pycparser calls) %s - at k=%d it is %.2fx the work at k=%d (allowed %.1fx + %d)" % (name, series, k, n / max(pn, 1), pk, RATIO, SLACK), "superlinear")
         prev = (k, n)
-        # coarse CPU-time backup for work inside C code (invisible to the profiler);
-        # a suspicion is re-measured three times (minimum) before it counts
-        if len(series) >= 3 and series[-1][2] > 0.25 and series[-1][2] > 3.5 * series[-2][2] and series[-2][2] > 3.5 * series[-3][2]:
-            best = []
-            for kk in ks[len(series) - 3 : len(series)]:
-                best.append(min(steps(builder(kk))[1] for _ in range(3)))
-            if best[2] > 0.25 and best[2] > 3.5 * best[1] and best[1] > 3.5 * best[0]:
-                fail("growth", case, builder(ks[0]), "family %s: CPU time %s (re-measured %s) grows > 3.5x per doubling twice in a row" % (name, series, [round(b, 4) for b in best]), "superlinear-time")
-            else:
-                st.classes["timing_suspicions_not_confirmed"] += 1
     return True
 
 
